@@ -132,7 +132,191 @@ def genexp_hook(eng, node, fr, first):
                 uniq.append(v)
         return uniq
 
-    return LazySeq(n, step, effects, what="generator expression `" + ast.unparse(node)[:60] + "`")
+    return with_item_ghost(eng, fr, LazySeq(n, step, effects, what="generator expression `" + ast.unparse(node)[:60] + "`"))
+
+
+def with_item_ghost(eng, fr, seq):
+    """GHOST CODE OF AN ITEM.  The contract of the function that CREATES a lazy iterator may give
+    `options["item_ghost"] = fn(eng, vars, k, item, calls)`: ghost code run right after item k has been produced, wherever the
+    item is consumed (item rule, consumer rule, a cut `for` loop).  `vars`: the creator's variables, `calls`: the calls logged
+    while this one item was produced.  Ghost code updates ghost state only (e.g. the read counters of a LazyLoadingTrees)."""
+    key = fr.func.key if fr.func is not None else None
+    c = eng.registry.get(key) if key is not None else None
+    if eng.cur_contract is not None and eng.cur_contract.key == key:
+        c = eng.cur_contract
+    ghost = c.options.get("item_ghost") if c is not None else None
+    if ghost is None:
+        return seq
+    inner = seq.step
+
+    def step(e, k):
+        mark = len(e.call_log)
+        item = inner(e, k)
+        from .loops import _visible
+
+        ghost(e, _visible(fr), k, item, list(e.call_log[mark:]))
+        return item
+
+    seq.step = step
+    return seq
+
+
+# ------------------------------------------------------------------------------------------ generator FUNCTIONS, lazily
+def _docstring_free(body):
+    return [s for s in body if not (isinstance(s, ast.Expr) and isinstance(s.value, ast.Constant))]
+
+
+def _carried_names(loop):
+    """names the loop body may carry from one iteration into the next: stored somewhere in the body (loop targets apart) and not
+    definitely assigned by a top-level assignment of the body before their first use (conservative, syntactic)"""
+    from .loops import _walk_no_defs
+
+    targets = {x.id for x in ast.walk(loop.target) if isinstance(x, ast.Name)}
+    stored = {x.id for x in _walk_no_defs(loop.body) if isinstance(x, ast.Name) and isinstance(x.ctx, (ast.Store, ast.Del))} - targets
+    defined, carried = set(), set()
+    for s in loop.body:
+        simple = isinstance(s, (ast.Assign, ast.AnnAssign)) and all(isinstance(t, ast.Name) for t in (s.targets if isinstance(s, ast.Assign) else [s.target]))
+        reads = [x for x in _walk_no_defs([s.value] if simple and s.value is not None else [s]) if isinstance(x, ast.Name) and isinstance(x.ctx, ast.Load)]
+        carried |= {x.id for x in reads if x.id in stored and x.id not in defined}
+        if simple:
+            defined |= {t.id for t in (s.targets if isinstance(s, ast.Assign) else [s.target])}
+        else:
+            carried |= {x.id for x in _walk_no_defs([s]) if isinstance(x, ast.Name) and isinstance(x.ctx, (ast.Store, ast.Del)) and x.id in stored and x.id not in defined}
+    return carried
+
+
+def _mutated_containers(eng, nodes, fr):
+    """the containers the statements may modify (the same syntactic analysis as a cut loop's havoc, pyvc.loops.havoc_loop_state),
+    as VALUES: they are the state a consumer of the lazy items has to treat as changed by every item"""
+    from .loops import _callee_mutates_self, analyse_mutation
+
+    _, roots = analyse_mutation(eng, nodes, fr)
+    out = []
+    for r in roots:
+        if isinstance(r, tuple) and r[0] == "attr":
+            try:
+                base = eng.ev(r[1], fr)
+            except (ProgExc, Unsupported):
+                base = None
+            if base is None or isinstance(base, Obj):
+                raise Unsupported("a lazily run generator loop assigns an attribute of an object")
+            continue
+        try:
+            if isinstance(r, tuple) and r[0] == "call":
+                base = eng.ev(r[1], fr)
+                if isinstance(base, Obj) and _callee_mutates_self(eng, base, r[2]):
+                    m = eng.find_method(base.cls, r[2])
+                    f = eng.func_from_py(m[1], m[2]) if m is not None and m[0] == "func" else None
+                    c = eng.registry.get(f.key) if f is not None else None
+                    if c is not None and c.modifies:
+                        sname = f.node.args.args[0].arg
+                        out += [eng._eval_in(t, {sname: base}, f.globs) for t in c.modifies if t.split(".")[0] == sname]
+                    else:
+                        out += [x for x in base.fields.values() if isinstance(x, (PList, SArr))]
+                continue
+            v = eng.ev(r, fr)
+        except (ProgExc, Unsupported):
+            continue
+        if isinstance(v, (PList, SArr)):
+            out.append(v)
+        elif isinstance(v, Obj):
+            out += [x for x in v.fields.values() if isinstance(x, (PList, SArr))]
+    return out
+
+
+def generator_hook(eng, func, fr):
+    """contract option `generator_hook=ext_C19.generator_hook`.  A generator FUNCTION whose body is one `for` loop over a
+    sequence of symbolic length that yields exactly one item per iteration
+            def __iter__(self):
+                for a, b in zip(self.xs, self.ys):
+                    yield <expression with side effects>
+    is the same lazy sequence as the generator expression with that element: `LazySeq(n, step, effects)`, where `step(eng, k)`
+    runs the REAL loop body for position k (program mode) at the moment item k is requested and returns what it yields.
+    The element sources are read when the item is requested (a list handed to zip / enumerate is read through, as CPython's
+    list iterators do).  Refused (Unsupported): state carried between iterations in local variables, attribute assignment,
+    break / return inside the loop, an iteration that yields no item or several.
+    Assumes: the loop's iterable expression is evaluated when the generator is created (CPython evaluates it at the first
+    next()); its evaluation may call only functions whose contracts modify nothing, so the two moments differ only in the VALUE
+    of the expression, i.e. if something it reads (a length, a name) changes between creation and the first item."""
+    from .engine import BreakSig, ContinueSig, ReturnSig
+
+    body = _docstring_free(func.node.body)
+    if len(body) != 1 or not isinstance(body[0], ast.For) or body[0].orelse:
+        return NotImplemented
+    loop = body[0]
+    mark = len(eng.call_log)
+    seqv = eng.ev(loop.iter, fr)
+    try:
+        items = models.iterate_concrete(eng, seqv)
+    except Unsupported:
+        items = None
+    if items is not None:
+        # concrete length: the stock eager run is exact (the iterable has been evaluated already: the loop runs here)
+        out = PList([])
+        fr.yield_sink = out
+        fr.vars["__yield__"] = out
+        try:
+            for x in items:
+                eng.assign(loop.target, x, fr)
+                try:
+                    eng.exec_block(loop.body, fr)
+                except ContinueSig:
+                    continue
+                except BreakSig:
+                    break
+        except ReturnSig:
+            pass
+        return Iter(out)
+    called = {nm for nm, _ in eng.call_log[mark:]}
+    if any(c.short in called and c.modifies for c in eng.registry.values()):
+        # (a call of a function that modifies nothing -- len(self) -- only makes the VALUE depend on the moment of evaluation)
+        raise Unsupported("lazily run generator: evaluating the loop's iterable calls a function that modifies state")
+    from .loops import _walk_no_defs
+
+    if any(isinstance(x, (ast.Break, ast.Return, ast.YieldFrom)) for x in _walk_no_defs(loop.body)):
+        raise Unsupported("lazily run generator: break / return / yield from inside the loop")
+    carried = _carried_names(loop)
+    if carried:
+        raise Unsupported(f"lazily run generator: the loop carries state between iterations in {sorted(carried)}")
+    outer_eff, eng.seq_effects = getattr(eng, "seq_effects", None), []
+    try:
+        n, getter = models.as_sequence(eng, seqv)
+    finally:
+        inner_eff, eng.seq_effects = eng.seq_effects, outer_eff  # (a consumer that is collecting effects right now keeps its list)
+    used(eng, "rule: a generator function `for x in S: yield e(x)` over a symbolic-length S is the lazy sequence whose item k runs the real loop "
+              "body for position k when it is requested (the iterable expression, which may call only functions that modify nothing, is evaluated at creation; list sources are read through)")
+
+    def step(e, k):
+        sub = Frame(parent=fr, globs=fr.globs, func=fr.func)
+        sink = PList([])
+        sub.yield_sink = sink
+        saved = e.cur_frame
+        try:
+            e.assign(loop.target, getter(k if isinstance(k, Sym) else Sym(z3.IntVal(k), "int")), sub)
+            try:
+                e.exec_block(loop.body, sub)
+            except ContinueSig:
+                pass
+        finally:
+            e.cur_frame = saved
+        if len(sink.items) != 1:
+            raise Unsupported(f"lazily run generator: an iteration yields {len(sink.items)} items (exactly one is supported)")
+        return sink.items[0]
+
+    def effects():
+        out = list(inner_eff) + _mutated_containers(eng, loop.body, fr)
+        try:
+            out += lazy_state(fr.lookup("self"))
+        except ProgExc:
+            pass
+        seen, uniq = set(), []
+        for v in out:
+            if id(v) not in seen:
+                seen.add(id(v))
+                uniq.append(v)
+        return uniq
+
+    return with_item_ghost(eng, fr, LazySeq(n, step, effects, what=f"generator function `{func.key.split(':')[-1]}`"))
 
 
 # ----------------------------------------------------------------------------------------------- consumers / item rule
@@ -186,6 +370,18 @@ def _clauses(eng, clauses, vars, old, default):
     return out
 
 
+def _prove_each(eng, goals, kind, note=""):
+    """every clause is its OWN obligation from the state reached (an earlier clause is not a hypothesis of a later one): a
+    change that breaks several clauses is reported under each of their names, not only under the first.  (Fewer hypotheses:
+    sound.)  All of them are hypotheses afterwards."""
+    base, proved = len(eng.pc), []
+    for name, val in goals:
+        eng.prove(name, val, kind, note)
+        proved += eng.pc[base:]
+        del eng.pc[base:]
+    eng.pc.extend(proved)
+
+
 def arbitrary_item(eng, seq, label, vars, requires, ensures, extra_state=(), kname="k"):
     """ITEM RULE for a carrier that returns the lazy iterator `seq`: for an arbitrary position 0 <= k < n and an arbitrary
     state of the iterator's effects satisfying `requires` (the object invariant: every method of the class keeps it, so
@@ -218,8 +414,8 @@ def arbitrary_item(eng, seq, label, vars, requires, ensures, extra_state=(), kna
                 eng.prove(f"{label}/exc/unexpected-{getattr(e.cls, '__name__', e.cls)}", False, "exception", "requesting an item raised")
                 raise PathEnd()
             v["got"] = item
-            for lab, val in _clauses(eng, ensures, v, old, "post"):
-                eng.prove(f"{label}/{lab}", val, "postcondition", "item rule: arbitrary position, arbitrary state satisfying the object invariant")
+            _prove_each(eng, [(f"{label}/{lab}", val) for lab, val in _clauses(eng, ensures, v, old, "post")], "postcondition",
+                        "item rule: arbitrary position, arbitrary state satisfying the object invariant")
         finally:
             eng.call_log = full
 
@@ -259,8 +455,7 @@ def consume(eng, seq, label, vars, invariant, body, state=(), kname="_k"):
             eng.prove(f"{label}/exc/unexpected-{getattr(e.cls, '__name__', e.cls)}", False, "exception", "consuming an item raised")
             raise PathEnd()
         v[kname] = eng.snum(k.z + 1, "int")
-        for lab, val in _clauses(eng, invariant, v, old, "inv"):
-            eng.prove(f"{label}/preserved/{lab}", val, "invariant")
+        _prove_each(eng, [(f"{label}/preserved/{lab}", val) for lab, val in _clauses(eng, invariant, v, old, "inv")], "invariant")
 
     phase(eng, values, one)
     seen = set()
@@ -572,8 +767,47 @@ def _reduce_model(eng, args, kwargs):
     return acc
 
 
+# --------------------------------------------------------------------------------------------------- np.searchsorted
+def _np_searchsorted(eng, args, kwargs):
+    """np.searchsorted(a, v, side='left'|'right') for a 1-D array `a` of symbolic length and a scalar v.  numpy requires `a`
+    sorted ascending: that is an OBLIGATION here (`<carrier>/safety/searchsorted-on-an-ascending-array`).  Result i:
+    left:  0 <= i <= n,  a[j] <  v for j < i,  a[j] >= v for j >= i     right:  a[j] <= v for j < i,  a[j] > v for j >= i"""
+    used(eng, "np.searchsorted(a, v, side) on an ascending 1-D array and a scalar v: the insertion index i (left: a[:i] < v <= a[i:], "
+              "right: a[:i] <= v < a[i:]); ascending order is proved at the call (cross-checked: tools/xcheck_C19_models.py)")
+    if len(args) > 2:
+        kwargs = dict(kwargs, side=args[2])
+        args = args[:2]
+    if len(args) != 2 or (set(kwargs) - {"side"}) or kwargs.get("sorter") is not None:
+        raise Unsupported("np.searchsorted form")
+    a, v = args
+    side = kwargs.get("side", "left")
+    if side not in ("left", "right"):
+        raise Unsupported("np.searchsorted with a symbolic / invalid side")
+    if not isinstance(a, SArr):
+        raise Unsupported("np.searchsorted on this kind of array")
+    kind = "real" if "real" in (a.kind, kind_of(v)) else "int"
+    if kind_of(v) not in ("int", "real"):
+        raise Unsupported("np.searchsorted of a non-scalar value")
+    vz = to_z3(v, kind)
+    at = lambda t: (z3.ToReal(z3.Select(a.arr, t)) if kind == "real" and a.kind == "int" else z3.Select(a.arr, t))
+    n = a.nz()
+    p, q = z3.Int(fresh_name("ssp")), z3.Int(fresh_name("ssq"))
+    eng.prove(eng.site("searchsorted-on-an-ascending-array"), z3.ForAll([p, q], z3.Implies(z3.And(0 <= p, p <= q, q < n), at(p) <= at(q))), "safety")
+    i = fresh("int", "ss")
+    j = z3.Int(fresh_name("ssj"))
+    below, above = ((lambda x: x < vz), (lambda x: x >= vz)) if side == "left" else ((lambda x: x <= vz), (lambda x: x > vz))
+    eng.assume(z3.And(i.z >= 0, i.z <= n))
+    eng.assume(z3.ForAll([j], z3.Implies(z3.And(j >= 0, j < i.z), below(at(j))), patterns=[z3.Select(a.arr, j)]))
+    eng.assume(z3.ForAll([j], z3.Implies(z3.And(j >= i.z, j < n), above(at(j))), patterns=[z3.Select(a.arr, j)]))
+    return i
+
+
 def install():
     import os
+
+    import numpy as _np
+
+    models.EXTRA_MODELS[_np.searchsorted] = _np_searchsorted
 
     models.EXTRA_MODELS[os.walk] = _os_walk
     models.EXTRA_MODELS[os.path.join] = _path_join
